@@ -324,7 +324,54 @@ def r10d(ctx):
     ctx.floor('R10d', 'option forwarding calls', n, 8)
 
 
+def r10e(ctx):
+    """The mode the samplers test belongs to the caller.  The eval-mode one-hot and the
+    training-mode Gumbel noise are selected by ``self.training``; a method of a sampler-bearing
+    class (or of a layer that owns one) that switches the mode itself — self.train() /
+    self.eval() / self.training = ... — must put back the value it found, otherwise a later
+    "eval" forward samples in training mode (or the reverse)."""
+    repo = ctx.repo
+    n = 0
+    classes = []
+    for base in sampler_classes(ctx):
+        classes += [c for c in repo.subclasses(base) if c not in classes]
+    for ci in classes:
+        for name, f in sorted(ci.methods.items()):
+            if name in ('__init__', 'train', 'eval'):
+                continue
+            for p in returning(paths(repo, f)):
+                switches = []
+                for i, e in enumerate(p.events):
+                    mc = method_call(e.data[0]) if e.kind == 'call' else None
+                    if mc and mc[0] == SELF and mc[1] in ('train', 'eval'):
+                        mode = ('const', False) if mc[1] == 'eval' else (
+                            mc[2][0] if mc[2] else arg(e.data[0], None, 'mode') or ('const', True))
+                        switches.append((i, e, mode))
+                    if e.kind == 'setattr' and e.data[0] == SELF and e.data[1] == 'training':
+                        switches.append((i, e, e.data[2]))
+                if not switches:
+                    continue
+                n += 1
+                last = switches[-1]
+                # restored iff the last switch writes back self.training as read before the
+                # first switch (the evaluator keeps the read symbolic: the term is the attribute)
+                restored = last[2] == ('attr', SELF, 'training')
+                ctx.ob('R10e', f'{ci.name}.{name} leaves the sampling mode as found', restored,
+                       'the mode found on entry is written back' if restored else
+                       f'{ci.name}.{name} ends with {short(last[1].data[0], 50)} whatever mode it '
+                       f'was called in: after model.eval(); {name}() the object is '
+                       f'{"in training mode" if last[2] == ("const", True) else "left in another mode"}'
+                       f', so the next eval-mode forward samples with the training rule (Gumbel '
+                       f'noise / soft coefficients) and no longer evaluates the arg-max that '
+                       f'summary() and export() report', where(f, last[1].node))
+    if n == 0:
+        ctx.ob('R10e', 'no sampler-bearing class switches its own mode', True,
+               'train()/eval() are only ever called by the user of the model',
+               repo.cls('SuperNetCombiner').where, nontrivial=False)
+
+
 def run(ctx):
+    r10e(ctx)
     r10a(ctx)
     r10b(ctx)
     r10c(ctx)
